@@ -165,6 +165,16 @@ def sprite (verbose : Bool) (m : Profile) (s : Sprite) : Array String := Id.run 
     o := o.push s!"byname {name n} -> {optNat (s.layerByName n)}"
   -- the layers() iterator: count and the ids it yields (selected positions)
   o := o.push s!"iter {nL} {String.intercalate "," (lsel.map toString)}"
+  -- std's iterator adaptors over `layers()`: skip(1), step_by(2), next / nth(1) / next, last, count
+  let ids := List.range nL
+  let show12 (l : List Nat) := String.intercalate "," ((l.take 12).map toString)
+  let skip1 := ids.drop 1
+  let step2 := ids.filter (fun i => i % 2 == 0)
+  let on (x : Option Nat) := match x with | none => "-" | some v => toString v
+  let first := ids[0]?
+  let nth1 := if nL ≥ 1 then ids[2]? else none
+  let after := if nL ≥ 1 && nth1.isSome then ids[3]? else none
+  o := o.push s!"iterx skip1={skip1.length}:{show12 skip1} step2={step2.length}:{show12 step2} next={on first} nth1={on nth1} next={on after} last={on ids.getLast?} count={nL}"
   o := o.push s!"tags {s.tags.size}"
   let tsel := sel s.tags.size 24
   for i in tsel do
